@@ -44,14 +44,63 @@ int prv_register(struct prv *prv, long row, long type, struct bay *bay, struct c
 	return 0;
 }
 
+/* ---- snprintf: RECORDING stub.  The prelude (and c13_io.h) drop the formatted text, so WHICH text a buffer
+ * holds is observed as (format string, string arguments) of the call that filled it: the last formatting is kept
+ * in g_sf, the first two in g_sf0 / g_sf1.  Every snprintf of pvt.c / model_pvt.c has <= 2 string arguments.
+ * (Trusted: "snprintf prints its arguments according to the format".) */
+enum { F_OTHER = 0, F_S = 1, F_PRV = 2, F_PCF = 3, F_ROW = 4, F_LABEL = 5 };
+#define FMT_S(f)        ((f)[0] == '%' && (f)[1] == 's' && (f)[2] == '\0')                                   /* "%s" */
+#define FMT_LABEL(f)    ((f)[0] == '%' && (f)[1] == 's' && (f)[2] == ' ' && (f)[3] == '%' && (f)[4] == 's' && (f)[5] == '\0')   /* "%s %s" */
+#define FMT_PATH(f, x, y, z) ((f)[0] == '%' && (f)[1] == 's' && (f)[2] == '/' && (f)[3] == '%' && (f)[4] == 's' && (f)[5] == '.' && \
+	(f)[6] == (x) && (f)[7] == (y) && (f)[8] == (z) && (f)[9] == '\0')                                      /* "%s/%s.xyz" */
+/* (one struct per record: a single assigns target and a single checked assignment each -- DFCC's write-set checks
+ * are what these ghosts cost) */
+struct sf_rec { char *dst; int kind; const void *a0, *a1; };
+struct sf_rec g_sf;             /* the last formatting */
+struct sf_rec g_sf0, g_sf1;     /* formattings number 0 and 1 */
+#define SF_FRAME g_sf, g_sf0, g_sf1
+/* (the format is a string literal read character by character behind short-circuit guards: no obligations wanted for
+ * these reads of the stub itself) */
+#pragma CPROVER check push
+#pragma CPROVER check disable "pointer"
+#pragma CPROVER check disable "bounds"
+static int c13w_fmt_kind(const char *fmt)
+{
+	return FMT_S(fmt) ? F_S : FMT_LABEL(fmt) ? F_LABEL : FMT_PATH(fmt, 'p', 'r', 'v') ? F_PRV :
+		FMT_PATH(fmt, 'p', 'c', 'f') ? F_PCF : FMT_PATH(fmt, 'r', 'o', 'w') ? F_ROW : F_OTHER;
+}
+#pragma CPROVER check pop
+static int c13w_snprintf(char *s, size_t n, const char *fmt, const void *a0, const void *a1)
+{
+	int kind = c13w_fmt_kind(fmt);
+	struct sf_rec r; r.dst = s; r.kind = kind; r.a0 = a0; r.a1 = a1;
+	if (g_snp_n == 0) g_sf0 = r;
+	if (g_snp_n == 1) g_sf1 = r;
+	g_sf = r;
+	return c13_snprintf(s, n);      /* c13_io.h: any length, truncation is a lower-layer failure, g_snp_n++ */
+}
+#define C13W_PICK(_1, _2, _3, NAME, ...) NAME
+#define c13w_s1(s, n, fmt)       c13w_snprintf((s), (n), (fmt), NULL, NULL)
+#define c13w_s2(s, n, fmt, a)    c13w_snprintf((s), (n), (fmt), (a), NULL)
+#define c13w_s3(s, n, fmt, a, b) c13w_snprintf((s), (n), (fmt), (a), (b))
+#undef snprintf
+#define snprintf(s, n, ...) C13W_PICK(__VA_ARGS__, c13w_s3, c13w_s2, c13w_s1)((s), (n), __VA_ARGS__)
+
 /* ---- stubs: pcf_add_type / pcf_add_value ---- */
 int g_want_id; void *g_want_pcf; int g_seen; int g_addtype_n;
+/* what the declaration of the observed type carried as its label: the buffer formatted last, and from what */
+struct lab_rec { int n, isbuf, kind; const void *a0, *a1; };
+struct lab_rec g_l;
+#define LAB_FRAME g_l
 static struct pcf_type g_type_obj;
 struct pcf_type *pcf_add_type(struct pcf *pcf, int type_id, const char *label)
 {
-	(void) label;
 	g_addtype_n++;
-	if (type_id == g_want_id && (void *) pcf == g_want_pcf) g_seen = 1;
+	if (type_id == g_want_id && (void *) pcf == g_want_pcf) {
+		g_seen = 1;
+		struct lab_rec r; r.n = g_l.n + 1; r.isbuf = (label == g_sf.dst); r.kind = g_sf.kind; r.a0 = g_sf.a0; r.a1 = g_sf.a1;
+		g_l = r;
+	}
 	if (nondet_bool()) { g_lowfail++; return NULL; }
 	return &g_type_obj;
 }
@@ -75,7 +124,22 @@ struct pvt *recorder_find_pvt(struct recorder *rec, const char *name)
 	return g_pvt;
 }
 
-#include "c13_pvtstubs.h"   /* prv_open, pcf_open, prf_open, *_close, prv_advance: logging stubs */
+/* prv_open, pcf_open, prf_open, *_close, prv_advance: logging stubs (shared header); here the three open stubs are
+ * wrapped so that the PATH each file is opened under is observed too: it must be the buffer formatted last, and the
+ * observation is the format and arguments of that formatting */
+#define prv_open c13_base_prv_open
+#define pcf_open c13_base_pcf_open
+#define prf_open c13_base_prf_open
+#include "c13_pvtstubs.h"
+#undef prv_open
+#undef pcf_open
+#undef prf_open
+struct sf_rec g_po_p, g_co_p, g_fo_p;    /* how the path of each open was formatted (kind -1: not the buffer formatted last) */
+#define PATH_FRAME g_po_p, g_co_p, g_fo_p
+static struct sf_rec c13w_path(const char *path) { struct sf_rec r = g_sf; if (path != g_sf.dst) r.kind = -1; return r; }
+int prv_open(struct prv *prv, long nrows, const char *path) { g_po_p = c13w_path(path); return c13_base_prv_open(prv, nrows, path); }
+int pcf_open(struct pcf *pcf, char *path) { g_co_p = c13w_path(path); return c13_base_pcf_open(pcf, path); }
+int prf_open(struct prf *prf, const char *path, long nrows) { g_fo_p = c13w_path(path); return c13_base_prf_open(prf, path, nrows); }
 #include "pv/pvt.c"          /* the real /repo/src/emu/pv/pvt.c */
 #include "model_pvt.c"       /* the real /repo/src/emu/model_pvt.c */
 
@@ -87,14 +151,24 @@ struct pvt *recorder_find_pvt(struct recorder *rec, const char *name)
  * pvt_open / pvt_advance / pvt_close
  * ===================================================================================== */
 int c_pvt_open(struct pvt *pvt, long nrows, const char *dir, const char *name)
-__CPROVER_requires(__CPROVER_is_fresh(pvt, sizeof(struct pvt)) && DIAG_PRE && LOW_PRE && PVT_ZERO && g_snp_n < 1000000u)
-__CPROVER_assigns(*pvt, DIAG_FRAME, g_lowfail, g_snp_ret, g_snp_n, PVT_FRAME)
+__CPROVER_requires(__CPROVER_is_fresh(pvt, sizeof(struct pvt)) && DIAG_PRE && LOW_PRE && PVT_ZERO && g_snp_n == 0)
+__CPROVER_assigns(*pvt, DIAG_FRAME, g_lowfail, g_snp_ret, g_snp_n, PVT_FRAME, SF_FRAME, PATH_FRAME)
 __CPROVER_ensures((RV == 0) == (g_lowfail == OLD(g_lowfail)))
 __CPROVER_ensures(RV == 0 || (RV == -1 && g_err > OLD(g_err)))
 /* one .prv, one .pcf, one .row, all three inside this pvt; the .prv and the .row get the same declared row count */
 __CPROVER_ensures(RV != 0 || (g_po_n == 1 && g_co_n == 1 && g_fo_n == 1 &&
 	g_po_prv == &pvt->prv && g_co_pcf == &pvt->pcf && g_fo_prf == &pvt->prf &&
 	g_po_nrows == nrows && g_fo_nrows == nrows))
+/* WHICH file: each writer is opened under the path formatted for IT from the two parameters -- <dir>/<name>.prv for
+ * the trace, <dir>/<name>.pcf for the configuration, <dir>/<name>.row for the row names (pvt.c); this holds for
+ * every open that is attempted, also when a later step refuses */
+__CPROVER_ensures(g_po_n == 0 || (g_po_p.kind == F_PRV && g_po_p.a0 == (const void *) dir && g_po_p.a1 == (const void *) name))
+__CPROVER_ensures(g_co_n == 0 || (g_co_p.kind == F_PCF && g_co_p.a0 == (const void *) dir && g_co_p.a1 == (const void *) name))
+__CPROVER_ensures(g_fo_n == 0 || (g_fo_p.kind == F_ROW && g_fo_p.a0 == (const void *) dir && g_fo_p.a1 == (const void *) name))
+/* accepted: five formattings; the pvt remembers its directory and its name ("%s" of the parameter into its field) */
+__CPROVER_ensures(RV != 0 || (g_snp_n == 5 &&
+	g_sf0.dst == pvt->dir && g_sf0.kind == F_S && g_sf0.a0 == (const void *) dir &&
+	g_sf1.dst == pvt->name && g_sf1.kind == F_S && g_sf1.a0 == (const void *) name))
 ;
 void h_pvt_open(void)
 {
@@ -102,6 +176,7 @@ void h_pvt_open(void)
 	int r = pvt_open(pvt, nrows, dir, name);
 	if (r == 0) REACH("pvt_open accepted");
 	if (r != 0) REACH("pvt_open refused");
+	if (r != 0 && g_fo_n == 1) REACH("refused by the row file, opened last");
 }
 
 int c_pvt_advance(struct pvt *pvt, int64_t time)
@@ -202,10 +277,15 @@ void h_connect_cpu_prv(void)
 /* create_values is proved separately (group create_values); here: called with the type object
  * that pcf_add_type returned, may fail */
 int g_cv_n;
+int g_cv_k_n;                 /* value-table passes made for the OBSERVED channel index g_k */
+const void *g_cv_pvt;         /* the per-channel tables of the spec under proof */
 int cr_create_values(const struct model_pvt_spec *pvt, struct pcf_type *t, int i)
 __CPROVER_requires(t == &g_type_obj && i >= 0)
-__CPROVER_assigns(g_cv_n, g_lowfail, DIAG_FRAME)
+/* asserted at the call site: the label tables are looked up in the tables of THIS spec */
+__CPROVER_requires((const void *) pvt == g_cv_pvt && g_cv_k_n >= 0 && g_cv_k_n < 1000000)
+__CPROVER_assigns(g_cv_n, g_cv_k_n, g_lowfail, DIAG_FRAME)
 __CPROVER_ensures(g_cv_n == OLD(g_cv_n) + 1)
+__CPROVER_ensures(g_cv_k_n == OLD(g_cv_k_n) + (i == g_k))
 __CPROVER_ensures(RV == 0 || (RV == -1 && g_lowfail == OLD(g_lowfail) + 1))
 __CPROVER_ensures(RV != 0 || g_lowfail == OLD(g_lowfail))
 __CPROVER_ensures(g_err == OLD(g_err) && g_diag == OLD(g_diag) && g_warn == OLD(g_warn))
@@ -220,13 +300,24 @@ int c_init_pcf(const struct model_chan_spec *chan, struct pcf *pcf)
 __CPROVER_requires(CHAN_OBJ(chan) && chan->nch <= NB && TRK_OK(chan) && (chan->nch == 0 || (g_k >= 0 && g_k < chan->nch)))
 __CPROVER_requires(DIAG_PRE && LOW_PRE && g_snp_n < 1000000u)
 __CPROVER_requires(g_seen == 0 && g_cv_n == 0 && g_addtype_n == 0 && g_want_pcf == (void *) pcf && (chan->nch == 0 || g_want_id == chan->pvt->type[g_k]))
-__CPROVER_assigns(DIAG_FRAME, g_lowfail, g_snp_ret, g_snp_n, g_seen, g_addtype_n, g_cv_n)
+__CPROVER_requires(g_l.n == 0 && g_cv_k_n == 0 && g_cv_pvt == (const void *) chan->pvt)
+__CPROVER_assigns(DIAG_FRAME, g_lowfail, g_snp_ret, g_snp_n, g_seen, g_addtype_n, g_cv_n, g_cv_k_n, SF_FRAME, LAB_FRAME)
 __CPROVER_ensures((RV == 0) == (g_lowfail == OLD(g_lowfail)))
 __CPROVER_ensures(RV == 0 || (RV == -1 && g_err > OLD(g_err)))
 /* accepted: the observed channel's type is declared in this pcf, unless it is the "no type" marker -1 */
 __CPROVER_ensures(RV != 0 || chan->nch == 0 || chan->pvt->type[g_k] == -1 || g_seen == 1)
 /* never more declarations than channels; values are created once per declared type */
 __CPROVER_ensures(RV != 0 || (g_addtype_n <= chan->nch && g_cv_n == g_addtype_n))
+/* accepted: the type of an ARBITRARY channel k uses the k-th entry of EVERY per-channel table: it is declared
+ * under the label formatted "%s %s" from prefix[k] and the suffix of track mode track[k] (the buffer handed to
+ * pcf_add_type is the one just formatted), and its values come from label table k (create_values with index k, once);
+ * a channel without type gets neither.  (g_l.n counts the declarations carrying type[k]: when the id occurs once in
+ * the table -- type ids are unique in every real spec, pcf_add_type refuses a second declaration -- that single
+ * declaration is channel k's, see the g_seen clause; with a duplicated id "the declaration of k" is not observable) */
+__CPROVER_ensures(RV != 0 || chan->nch == 0 || chan->pvt->type[g_k] == -1 || g_l.n != 1 ||
+	(g_l.isbuf && g_l.kind == F_LABEL && g_l.a0 == (const void *) chan->pvt->prefix[g_k] &&
+	 g_l.a1 == (const void *) pcf_suffix[chan->track[g_k]]))
+__CPROVER_ensures(RV != 0 || chan->nch == 0 || g_cv_k_n == (chan->pvt->type[g_k] != -1))
 ;
 void h_init_pcf(void)
 {
@@ -236,6 +327,7 @@ void h_init_pcf(void)
 	if (r == 0 && !g_seen && g_addtype_n > 0) REACH("observed channel has no type (-1), others do");
 	if (r == 0 && g_addtype_n == 0 && g_cv_n == 0) REACH("nothing to declare");
 	if (r != 0) REACH("failure propagated");
+	if (r == 0 && g_l.n == 1 && g_k == 2 && g_addtype_n == 3) REACH("third of three declared types observed (unique id)");
 }
 
 /* =====================================================================================
